@@ -3,5 +3,5 @@
 ID=$1; F=$2; E=$3; shift 3
 cd /repo && sed -i "$E" "$F" && git diff --stat | tail -1
 if git diff --quiet; then echo "MUTATION DID NOT APPLY"; exit 3; fi
-cd /verif && ./vx check $ID "$@" | grep -v "^UNIT.*discharged"; echo "exit=${PIPESTATUS[0]}"
+cd /verif && VERIF_EVIDENCE_DIR=/verif/.cache/evidence-mut ./vx check $ID "$@" | grep -v "^UNIT.*discharged"; echo "exit=${PIPESTATUS[0]}"
 cd /repo && git checkout -- . 
